@@ -12,38 +12,79 @@ from ..symex import Obj, EnumV, Ref, Cell, Ev, deref, bv, base_name
 from ..contract import as_bv64, norm_segs, fork_cond
 from . import common as C
 
-_H = {}
-_hash_terms = []
+_registry = []      # (content: list of BV8, chk: BV64 variable)   -- checksums of contents produced by the writer
+_derived = []       # fresh checksum variables for contents that match no registered content
+_u64_reads = []
+_mode = {'register': True}
 
 
 def H(bytes_list):
-    """uninterpreted checksum of a byte list (one function per length)"""
+    """F5 model of xxh3 over a byte list.  Writer side (register mode): a fresh 64-bit variable per content.
+    Reader side: the variable of the registered content the bytes are equal to, else a fresh value that collides with nothing."""
     n = len(bytes_list)
-    if n == 0:
-        return z3.BitVec('H_empty', 64)
-    f = _H.get(n)
-    if f is None:
-        f = z3.Function(f'xxh3_{n}', z3.BitVecSort(8 * n), z3.BitVecSort(64)); _H[n] = f
-    arg = z3.Concat(*bytes_list) if n > 1 else bytes_list[0]
-    t = f(arg)
-    _hash_terms.append((n, arg, t))
-    return t
+    if _mode['register']:
+        for c, chk in _registry:
+            if len(c) == n and all(z3.eq(a, b) for a, b in zip(c, bytes_list)):
+                return chk
+        chk = z3.BitVec(f'chk{len(_registry)}', 64)
+        _registry.append((list(bytes_list), chk))
+        return chk
+    other = z3.BitVec(f'hx{len(_derived)}', 64)
+    _derived.append(other)
+    t = other
+    for c, chk in reversed(_registry):
+        if len(c) != n:
+            continue
+        same = z3.And(*[a == b for a, b in zip(c, bytes_list)]) if n else z3.BoolVal(True)
+        t = z3.If(same, chk, t)
+    return z3.simplify(t)
+
+
+def H_unknown():
+    """checksum of bytes we cannot enumerate (e.g. re-compressed data): collides with nothing known"""
+    other = z3.BitVec(f'hx{len(_derived)}', 64)
+    _derived.append(other)
+    return other
+
+
+def is_chk(e):
+    return z3.is_const(e) and e.decl().name().startswith('chk')
 
 
 def injectivity_axioms():
-    """F5: the checksum does not collide on the inputs that are compared in one query"""
+    """F5: distinct contents have distinct checksums; a checksum of unregistered content equals no registered checksum;
+    a 64-bit value read from the file that is not literally a stored checksum equals no checksum (2^-64 events excluded)"""
     ax = []
-    terms = list({(n, a.get_id()): (n, a, t) for n, a, t in _hash_terms}.values())
-    for (n1, a1, t1), (n2, a2, t2) in itertools.combinations(terms, 2):
-        if n1 == n2:
-            ax.append(z3.Implies(t1 == t2, a1 == a2))
-        else:
-            ax.append(t1 != t2)
+    for i in range(len(_registry)):
+        for j in range(i + 1, len(_registry)):
+            ci, ki = _registry[i]; cj, kj = _registry[j]
+            if len(ci) != len(cj):
+                ax.append(ki != kj)
+            else:
+                ax.append((ki == kj) == z3.And(*[a == b for a, b in zip(ci, cj)]))
+    for hx in _derived:
+        for _c, k in _registry:
+            ax.append(hx != k)
+    seen = set()
+    for e in _u64_reads:
+        e = z3.simplify(e)
+        if e.get_id() in seen or is_chk(e) or z3.is_bv_value(e):
+            continue
+        seen.add(e.get_id())
+        for _c, k in _registry:
+            ax.append(e != k)
+        for hx in _derived:
+            ax.append(e != hx)
     return ax
 
 
 def reset_hashes():
-    _hash_terms.clear()
+    _registry.clear(); _derived.clear(); _u64_reads.clear()
+    _mode['register'] = True
+
+
+def reader_mode():
+    _mode['register'] = False
 
 
 def le_bytes(v, width):
@@ -101,7 +142,9 @@ def ov_hash_finish(ex, st, call):
     segs = h.data.get('hashed', []) if isinstance(h, Obj) else []
     fl = flatten(segs)
     if fl is None:
-        return NotImplemented
+        v = H_unknown()
+        st.emit(Ev('HASH_FINISH', obj=h, args={'bytes': list(segs), 'flat': None}, res=v, site=call.site))
+        return v
     v = H(fl)
     st.emit(Ev('HASH_FINISH', obj=h, args={'bytes': list(segs), 'flat': fl}, res=v, site=call.site))
     return v
@@ -235,6 +278,8 @@ def ov_read_int(ex, st, call):
         return ex.mk_enum(call.dst_ty, 'Err', [eof_err()])
     bs = [file_byte(f, pos + i) for i in range(n)]
     v = z3.simplify(z3.Concat(*reversed(bs))) if n > 1 else bs[0]
+    if n == 8:
+        _u64_reads.append(v)
     f.data['pos'] = pos + n
     return ex.mk_enum(call.dst_ty, 'Ok', [v])
 
@@ -406,6 +451,8 @@ def run_reader(ctx, image, length, zero_from, max_batches=4, extra_pc=()):
     """execute JournalBatchReader::next repeatedly over the image; returns list of outcomes (one per feasible path):
        {'batches': [...], 'end': 'none'|'error', 'err': .., 'set_len': [...], 'pc': [...], 'status': ..}"""
     fn = ctx.prog.find(r'^batch_reader::<impl>::next$|^journal::batch_reader::<impl>::next$')
+    reader_mode()
+    _derived.clear(); _u64_reads.clear()      # per reader run; the registry of written contents stays
     results = []
     # the reader object persists across calls: run next() up to max_batches+1 times on the evolving state
     ex = ctx.executor(loop_bound=12, overrides=READER_OVERRIDES, max_depth=14)
